@@ -60,7 +60,23 @@ var c14clock int64
 // VerifC14: any sequence of ban / unban / use / restart on broker A (durable state in a
 // state directory, 60 s read cache in front of it), with the broadcast payloads delivered to a second durable
 // broker B that may have looked the key up before.
-func VerifC14(v *verifrt.T) {
+func VerifC14(v *verifrt.T) { c14history(v, nil) }
+
+// VerifC14Shapes: the same oracle on longer histories of fixed shape (clock steps still
+// arbitrary): the shapes in which the second broker has looked the key up (so its answer
+// sits in the 60 s read cache) before the gossip that changes it is merged, and in which
+// broker A restarts between toggles.
+func VerifC14Shapes(v *verifrt.T) {
+	shapes := [][]int{
+		{0, 3, 4, 1, 3, 4},       // ban, deliver, use on B, unban, deliver, use on B
+		{0, 3, 1, 3, 4, 0, 3, 4}, // ... the key has a tombstone on B and was looked up, then a ban arrives
+		{0, 1, 5, 2, 0, 5, 2},    // toggle, restart, use, ban, restart, use
+		{0, 3, 4, 5, 1, 3, 4, 2}, // restart of A between the ban and the unban
+	}
+	c14history(v, shapes[v.Choice(len(shapes), "shape")])
+}
+
+func c14history(v *verifrt.T, kinds []int) {
 	crdt.Now = func() int64 { return c14clock }
 	c14clock = 1000
 	ga := &c14gossip{}
@@ -79,12 +95,21 @@ func VerifC14(v *verifrt.T) {
 	kb := keyban.New(nil, c14dec{}, a)
 	ban := event.Ban("the-key")
 	n := v.Bound("ops")
+	if kinds != nil {
+		n = len(kinds)
+	}
 	banned := false                // what A has acknowledged last
 	var bAdd, bDel int64           // what has been delivered to B
 	delivered := 0
 	for i := 0; i < n; i++ {
 		c14clock += 1 + int64(v.U8("dt", i)) // acknowledged operations are at least 1 ns apart
-		switch v.Choice(6, "op", i) {
+		op := 0
+		if kinds != nil {
+			op = kinds[i]
+		} else {
+			op = v.Choice(6, "op", i)
+		}
+		switch op {
 		case 5: // A stops and starts again on the same state directory
 			a.state.Close()
 			a = &Swarm{state: event.NewState(dir), gossip: ga}
